@@ -1,6 +1,7 @@
 //! `lv`: runtime monitors for the ldpc-toolbox properties C01..C20.
 #![allow(clippy::needless_range_loop, clippy::too_many_arguments, clippy::type_complexity)]
 
+pub mod abort;
 pub mod ctx;
 pub mod genm;
 pub mod impls;
